@@ -545,6 +545,22 @@ def brute_isos(g1, g2, stereo=True, changes=True, limit=None):
 def iter_isos(g1, g2, stereo=True, changes=True, budget=None):
     """adjacency-pruned backtracking; yields every structure/role/(stereo)-preserving
     bijection exactly once.  Independent of the repository's VF2++."""
+    import sys
+
+    # the search recurses once per atom: lift the interpreter's recursion limit for the reference only (consumers
+    # exhaust this generator before they call the library again, so the library still runs under the default limit)
+    old_limit = sys.getrecursionlimit()
+    need = 4 * len(g1["atoms"]) + 500
+    if need > old_limit:
+        sys.setrecursionlimit(need)
+    try:
+        yield from _iter_isos(g1, g2, stereo, changes, budget)
+    finally:
+        if need > old_limit:
+            sys.setrecursionlimit(old_limit)
+
+
+def _iter_isos(g1, g2, stereo=True, changes=True, budget=None):
     A1 = list(g1["atoms"])
     if len(A1) != len(g2["atoms"]) or len(g1["bonds"]) != len(g2["bonds"]):
         return
